@@ -23,7 +23,8 @@ RULE = (
     "distinct = canonical spec hash + settings"
 )
 REQUIRED = ["finite", "converged.resweep", "sweeps.bound", "sweeps.announced", "exception.type", "phys.polarity", "phys.no_gain",
-            "law.vout", "law.iin", "benign.solved", "benign.matches_reference", "benign.tighter_is_closer", "overload.decided"]
+            "law.vout", "law.iin", "benign.solved", "benign.matches_reference", "benign.tighter_is_closer", "overload.decided",
+            "benign.solved_after_edit"]
 SIZES = {"quick": 260, "thorough": 1600}
 ASSUMPTIONS = [
     "the literal loop bound of the code is maxiter+1 sweeps (while iters <= maxiter); the monitor uses that bound",
@@ -294,6 +295,7 @@ def benign(ctx, case, spec, st, df, det):
                 if not tt.i(x[C[k]], r[k]):
                     bad.append((p, n, k, x[C[k]], r[k]))
     ctx.check("benign.matches_reference", not bad, dict(det, differences_table_vs_reference=bad[:6]))
+    _what_if(ctx, case, spec, refs, phases, det)
     # tightening the tolerances tightens the answer: distance to the reference steady state must not grow
     st_, sysobj = H.try_build(spec)
     errs = {}
@@ -319,6 +321,64 @@ def benign(ctx, case, spec, st, df, det):
     else:
         ctx.check("benign.solved_at_all_tolerances", errs[1e-3] is not None and errs[1e-6] is not None,
                   dict(det, errors={str(k): v for k, v in errs.items()}))
+
+
+def _what_if(ctx, case, spec, refs, phases, det):
+    """The same steady state must be found when the benign system is reached by EDITING an analysed one: first a
+    variant with f-times the load and 1/f of every series resistance (same voltage drops, f-times the currents) is
+    solved, then every changed component is replaced in place by the real one and the system is solved again."""
+    import copy
+    import random
+
+    rng = random.Random(case.get("hseed", 0) ^ 0x5EED)
+    f = rng.choice([30.0, 100.0, 1000.0])
+    A = copy.deepcopy(spec)
+    changed = []
+    for c in A["comps"]:
+        a, k = c["args"], c["kind"]
+        if k in ("RLoss", "PSwitch", "Source", "RLoad") and isinstance(a.get("rs"), (int, float)) and a.get("rs"):
+            a["rs"] = a["rs"] / f
+        elif k == "ILoad":
+            a["ii"] = a["ii"] * f
+        elif k == "PLoad":
+            a["pwr"] = a["pwr"] * f
+        else:
+            continue
+        changed.append(c["name"])
+    if not changed:
+        return
+    ns = loader.load()
+    st, so = H.try_build(A)
+    if st != "ok":
+        return
+    s1, _d = H.solve(so)
+    cm = S.comp_map(spec)
+    for n in changed:
+        c = cm[n]
+        so.change_comp(n, comp=S.make_comp(ns, c), group=c.get("group", ""), rail=c.get("rail", ""))
+        if c.get("phase") is not None:
+            so.set_comp_phases(n, copy.deepcopy(c["phase"]))
+    s2, d2 = H.solve(so)
+    det2 = dict(det, history="variant with x%g load currents and 1/%g series resistance solved (%s), %d components changed in place, solved again"
+                % (f, f, "ok" if s1 == "ok" else "raised", len(changed)))
+    ctx.check("benign.solved_after_edit", s2 == "ok", dict(det2, outcome=H.exc_sig(d2) if s2 != "ok" else "returned"))
+    if s2 != "ok":
+        return
+    _, per, _ = M.split_table(d2)
+    C = M.COLS
+    bad = []
+    for p in phases:
+        rows = per[p]["rows"]
+        tt = H.TwinTol(rows, rel=1e-4, k=20.0)
+        for n, r in refs[p].items():
+            x = rows[n]
+            for k in ("vin", "vout"):
+                if not tt.v(x[C[k]], r[k]):
+                    bad.append((p, n, k, x[C[k]], r[k]))
+            for k in ("iin", "iout"):
+                if not tt.i(x[C[k]], r[k]):
+                    bad.append((p, n, k, x[C[k]], r[k]))
+    ctx.check("benign.solved_after_edit", not bad, dict(det2, differences_table_vs_reference=bad[:6]))
 
 
 def _bucket(n):
